@@ -363,6 +363,12 @@ class VDate(V):
     d: Any
 
 
+@dataclass
+class VDateTime(VDate):
+    """an instance of datetime.datetime: a *subclass* instance of date (only
+    its date part is modelled; equality with dates is left unsupported)"""
+
+
 def validity_value(t, path: "Path") -> V:
     if path.branch(Validity.is_v_none(t)):
         return NONE
